@@ -152,8 +152,9 @@ def check_C01(run):
     q = run.quick
     fams = [("hist", dict(over=dict(MaxT=5 if q else 7, MaxKids=4 if q else 6, MaxRecs=2, MaxRevokes=1, EmitEvery=12 if q else 40),
                           ik=("session", "shared") if q else ("session", "shared", "none"), sk=(True,) if q else (True, False))),
-            ("two-parts", dict(over=dict(MaxT=3 if q else 5, MaxKids=4 if q else 5, MaxRecs=2, MaxRevokes=0 if q else 1, EmitEvery=15 if q else 60),
-                               parts=("a", "b"), ik=("shared",) if q else ("shared", "session"), sk=(True,)))]
+            # thorough: 33 M distinct states / 10 min at MaxT=4 on 16 cores (MaxT=5 does not finish in 40 min)
+            ("two-parts", dict(over=dict(MaxT=3 if q else 4, MaxKids=4 if q else 5, MaxRecs=2, MaxRevokes=0 if q else 1, EmitEvery=15 if q else 120),
+                               parts=("a", "b"), ik=("shared",) if q else ("shared", "session"), sk=(True,), timeout=900 if q else 3000))]
     if not q:
         fams.append(("sesscache", dict(over=dict(MaxT=6, MaxKids=5, MaxRecs=2, EmitEvery=40), ik=("session",), sk=(True,), sess=(True,))))
     return generic(run, fams)
@@ -268,7 +269,8 @@ def check_C05(run):
     fams.append(("revoke+fault", dict(over=dict(MaxT=4 if q else 5, MaxKids=4, MaxRecs=1, MaxRevokes=1, MaxFaults=1, MaxOpFaults=1, EmitEvery=20 if q else 40),
                                       ik=("session",) if q else ("session", "shared"), sk=(True,))))
     if not q:
-        fams.append(("revoke-2proc", dict(over=dict(MaxT=4, MaxKids=5, MaxRecs=1, MaxRevokes=1, EmitEvery=80), procs=("p1", "p2"), ik=("session",), sk=(True,))))
+        # (with CloseSession / Restart as well this family does not finish in 40 min; Enc + Dec: 2.8 M distinct states)
+        fams.append(("revoke-2proc", dict(over=dict(MaxT=4, MaxKids=5, MaxRecs=1, MaxRevokes=1, EmitEvery=80, OpKinds='{"Enc", "Dec"}'), procs=("p1", "p2"), ik=("session",), sk=(True,))))
     return generic(run, fams)
 
 
